@@ -58,6 +58,8 @@ extern "C" void h_lines(void)
 	for (int i = 0; i < nsym; i++) { t[n] = (char)nondet_u8(); vp_assume(t[n] != 0); n++; }
 	if (tail) { t[n++] = '\n'; t[n++] = 'z'; }
 	t[n] = 0;
+	// texts that start with a byte-order mark are decoded by text() (covered by h_bom): excluded here
+	if (n >= 2) { byte b0 = (byte)t[0], b1 = (byte)t[1]; vp_assume(!((b0 == 0xFF && b1 == 0xFE) || (b0 == 0xFE && b1 == 0xFF) || (b0 == 0xEF && b1 == 0xBB))); }
 	{ TextFile w("t.txt", File::WRITE); vp_assert(w.write(String(t)), "text written"); }
 	TextFile f("t.txt");
 	String all = f.text();
